@@ -82,6 +82,9 @@ structure Shown where
   «end» : Int
   coreStart : Int
   coreEnd : Int
+  /-- number of positions covered by the drawn extent / core (both halves together) -/
+  len : Int
+  coreLen : Int
 deriving DecidableEq, Repr
 
 /-- drawing coordinate → genome coordinate for a start (`L` itself is position 0) -/
@@ -90,7 +93,8 @@ def foldS (L x : Int) : Int := if L ≤ x then x - L else x
 def foldE (L x : Int) : Int := if L < x then x - L else x
 
 def Drawn.shown (L : Int) : Drawn → Option Shown
-  | .whole a => some ⟨a.kind, foldS L a.nstart, foldE L a.nend, foldS L a.start, foldE L a.end⟩
+  | .whole a => some ⟨a.kind, foldS L a.nstart, foldE L a.nend, foldS L a.start, foldE L a.end,
+                      a.nend - a.nstart, a.end - a.start⟩
   | .halves a b =>
     -- the first half runs up to the end of the record, the second starts at the origin, both
     -- on the same row; the core is whatever part of it lies in each half (an empty piece is
@@ -98,18 +102,20 @@ def Drawn.shown (L : Int) : Drawn → Option Shown
     if a.nend == L && b.nstart == 0 && a.kind == b.kind && a.height == b.height then
       some ⟨a.kind, a.nstart, b.nend,
             if a.start < a.end then a.start else b.start,
-            if b.start < b.end then b.end else a.end⟩
+            if b.start < b.end then b.end else a.end,
+            (a.nend - a.nstart) + (b.nend - b.nstart), (a.end - a.start) + (b.end - b.start)⟩
     else none
 
 def Drawn.groupId : Drawn → Option Int
   | .whole _ => none
   | .halves a _ => some a.group
 
-/-- what must be shown for a feature: its extent, and its core if it is a protocluster -/
+/-- what must be shown for a feature: its extent, and its core if it is a protocluster, with as
+    many positions as the feature (core) has bases — so a core is never drawn as an empty span -/
 def expectedShown (f : Feat) : Shown :=
   match f.kind with
-  | .proto => ⟨f.kind, f.start, f.end, f.coreStart, f.coreEnd⟩
-  | _ => ⟨f.kind, f.start, f.end, f.start, f.end⟩
+  | .proto => ⟨f.kind, f.start, f.end, f.coreStart, f.coreEnd, f.loc.len, f.core.len⟩
+  | _ => ⟨f.kind, f.start, f.end, f.start, f.end, f.loc.len, f.loc.len⟩
 
 /-- the features that have to appear: every subregion, every protocluster, and every candidate
     cluster except the `single` ones of a region without subregions (those are represented by
@@ -215,12 +221,12 @@ def tilesRecord : Loc → Bool
   | _ => false
 
 /-- a child area of the region: well-formed, inside the region, origin-spanning only on a
-    circular record; a protocluster's core is well-formed, does not itself tile the whole record, lies
+    circular record; a protocluster's core is well-formed (it may tile the whole record, like any area), lies
     inside the protocluster, and an origin-spanning core needs an origin-spanning protocluster -/
 def featOK (c : Ctx) (f : Feat) : Bool :=
   collOK c.L f.loc && locationContainsOther c.region f.loc && (!f.crosses || c.circular)
     && (f.kind != .proto
-        || (collOK c.L f.core && !tilesRecord f.core && locationContainsOther f.loc f.core
+        || (collOK c.L f.core && locationContainsOther f.loc f.core
             && (!decide (f.core.parts.length > 1) || f.crosses)))
 
 def regionOK (c : Ctx) : Bool :=
